@@ -5,6 +5,8 @@ CONSTANTS
   MaxT = 2
   Variant = "wrap_swapped"
   Dense = TRUE
+  Basis = "origin"
+  Singles = "none"
 INVARIANT TypeOK
 INVARIANT TileInv
 CHECK_DEADLOCK FALSE
